@@ -723,6 +723,71 @@ func val4(c *Ctx) {
 			c.OK(key, fn.Pos(), "no Clear is followed by a failing exit")
 		}
 	}
+	// no partial content: a failing exit that can follow a Set on the target must pass a Clear after that Set
+	for _, fn := range order {
+		var sets, clears []*ssa.Call
+		for _, call := range ir.Calls(fn) {
+			if cv, ok := call.(*ssa.Call); ok && ir.IsInvokeOf(cv, "Set") {
+				sets = append(sets, cv)
+			}
+			if cv, ok := call.(*ssa.Call); ok && ir.IsInvokeOf(cv, "Clear") {
+				clears = append(clears, cv)
+			}
+		}
+		if len(sets) == 0 || len(clears) == 0 {
+			continue // single-valued route, or no multi-valued handling here
+		}
+		key := Q(fn) + ":no-partial-content"
+		bad := ""
+		for _, r := range ir.Returns(fn) {
+			if len(r.Results) != 1 || ir.IsNilConst(r.Results[0]) {
+				continue
+			}
+			if b, isC := ir.ConstBool(r.Results[0]); isC && b {
+				continue
+			}
+			for _, st := range sets {
+				// can r follow st?
+				follows := st.Block() == r.Block() && ir.IndexIn(st) < ir.IndexIn(r)
+				if !follows {
+					for _, sc := range st.Block().Succs {
+						if ir.Reach(sc, nil, nil)[r.Block()] {
+							follows = true
+						}
+					}
+				}
+				if !follows {
+					continue
+				}
+				if !ir.MustPassAfter(st, func(in ssa.Instruction) bool {
+					cv, ok := in.(*ssa.Call)
+					return ok && ir.IsInvokeOf(cv, "Clear") && cv.Call.Value == st.Call.Value
+				}) {
+					// MustPassAfter considers all returns; restrict to failing ones: check this return specifically
+					blocked := map[*ssa.BasicBlock]bool{}
+					for _, cl := range clears {
+						if cl.Call.Value == st.Call.Value && cl.Block() != st.Block() {
+							blocked[cl.Block()] = true
+						}
+					}
+					reach := false
+					for _, sc := range st.Block().Succs {
+						if ir.Reach(sc, blocked, nil)[r.Block()] {
+							reach = true
+						}
+					}
+					if reach {
+						bad = fmt.Sprintf("the failing exit at %s can be reached after Set at %s without clearing: a rejected environment list leaves a partial value behind", c.P.Pos(r.Pos()), c.P.Pos(st.Pos()))
+					}
+				}
+			}
+		}
+		if bad != "" {
+			c.Bad(key, fn.Pos(), "%s", bad)
+		} else {
+			c.OK(key, fn.Pos(), "a rejected list never leaves some of its elements in the target")
+		}
+	}
 	// single-valued route: a failing Set leaves built-ins untouched (VAL-2); recorded as one obligation
 	c.OK("single-valued:failed-Set-is-no-op", token.NoPos, "for built-in types by VAL-2; custom types assumed (%d functions with Clear on the env path)", n)
 }
